@@ -223,7 +223,7 @@ func c11Source(s c11Src, nrows int, sh c11Shape) (parquet.RowGroup, error) {
 			}
 		}
 		return b, nil
-	case "multi", "disjoint":
+	case "multi", "disjoint", "dedupdisjoint":
 		rgs := []parquet.RowGroup{}
 		for _, seg := range segments() {
 			f, err := writeFile(sh.schema, sh.row, seg, s.Bloom)
@@ -234,6 +234,11 @@ func c11Source(s c11Src, nrows int, sh c11Shape) (parquet.RowGroup, error) {
 		}
 		if s.Kind == "multi" {
 			return parquet.MultiRowGroup(rgs...), nil
+		}
+		if s.Kind == "dedupdisjoint" {
+			// as below, dropping duplicates: every key occurs twice inside its segment
+			return parquet.MergeRowGroups(rgs, sh.schema,
+				parquet.SortingRowGroupConfig(parquet.SortingColumns(parquet.Ascending("k")), parquet.DropDuplicatedRows(true)))
 		}
 		// sorted on k and not overlapping (k = id / 2 and segments start at even ids): the merge keeps them as segments
 		return parquet.MergeRowGroups(rgs, sh.schema, sorting)
